@@ -324,7 +324,38 @@ def case_multifile(ctx, inp):
         ctx.branch("custom-delimiter-with-cr-or-lf-in-content")
 
 
-CASES = {"plan": case_plan, "round53": case_round53, "seek": case_seek, "readblock": case_readblock,
+def case_gzip(ctx, inp):
+    """Compressed files can only be read with blocksize=None: the lines are the split of the DECOMPRESSED
+    content; asking for a blocksize must be refused (ValueError), never silently cut compressed bytes."""
+    import gzip
+    import fsspec
+    from dask.bag.text import read_text
+    data, d = inp["data"], inp["delim"]
+    text = _b(data).decode("utf-8")
+    delim = None if d is None else _b(d).decode("utf-8")
+    ref = U.ref_univ(text) if d is None else U.ref_lines(text, delim)
+    m = fsspec.filesystem("memory")
+    U._COUNTER[0] += 1
+    path = f"/verif_bag_gz_{U._COUNTER[0]}/f.txt.gz"
+    try:
+        m.pipe(path, gzip.compress(_b(data)))
+        got = list(read_text("memory:/" + path, encoding="utf-8", linedelimiter=delim).compute(scheduler="sync"))
+        if got != ref:
+            ctx.fail("read_text of a gzip file differs from the split of the decompressed content", observed=got, expected=ref)
+        try:
+            r = list(read_text("memory:/" + path, encoding="utf-8", linedelimiter=delim, blocksize=3).compute(scheduler="sync"))
+            ctx.fail("read_text(blocksize=3) on a gzip file did not raise", observed=r)
+        except ValueError:
+            ctx.branch("gzip-blocksize-refused")
+    finally:
+        try:
+            m.rm(path.rsplit("/", 1)[0], recursive=True)
+        except Exception:
+            pass
+    ctx.branch("gzip")
+
+
+CASES = {"gzip": case_gzip, "plan": case_plan, "round53": case_round53, "seek": case_seek, "readblock": case_readblock,
          "decode": case_decode, "ftb": case_ftb, "blocks": case_blocks, "readtext": case_readtext,
          "multifile": case_multifile}
 
@@ -415,6 +446,11 @@ def generate(ctx):
                 continue
         yield "readtext", {"data": data, "delim": d, "bss": gen_blocksizes(rng, len(data)),
                            "fs": "tmp" if rng.random() < 0.25 else "mem"}
+    for _ in range(ctx.n(12, 150)):
+        d = rng.choice([None, list(rng.choice(DELIMS))])
+        data = gen_data(rng, d or b"\n")
+        if _valid_utf8(bytes(data)):
+            yield "gzip", {"data": data, "delim": d}
     for _ in range(ctx.n(50, 700)):
         d = list(rng.choice(DELIMS))
         files = []
